@@ -809,3 +809,12 @@ for _p in ("C01", "C02", "C03", "C06", "C09"):
 # C08: reading again into a ReadBuf that already owns a (full or partly filled) pool buffer is
 # C15's driver, on the real kernel (seed C08-h).
 PROPS["C08"]["also_drivers"] = ["C15"]
+# C10: the composite writers/senders hand the kernel whatever the buffer wrappers expose
+# (LimitedBuf, seed C10-h: C14's driver) and re-use one operation state across restarts of a
+# two-step send (seed C10-g: the history driver with C09's weights).
+PROPS["C10"]["also_drivers"] = ["C14", "C09"]
+# C15: read_n / recv_n into an unassigned pool ReadBuf go through the counting wrapper: C10's driver
+# (seed C15-g). C16: the (pointer, length) pair is put into msghdr by the callers: C13's driver
+# compares msg_name / msg_namelen of every send_to / recv_from with the ABI (seed C16-g).
+PROPS["C15"]["also_drivers"] = ["C10"]
+PROPS["C16"]["also_drivers"] = ["C13"]
